@@ -9,6 +9,7 @@ package libp2p
 // another goroutine leaves its marker line behind.
 
 import (
+	"sync"
 	"bytes"
 	"math/big"
 	"context"
@@ -49,6 +50,7 @@ import (
 
 type c06In struct {
 	Tag   string `json:"tag"`
+	Parallel int   `json:"parallel,omitempty"` // preconf-provider / discovery: this many goroutines open streams at once
 	Entry string `json:"entry"` // hs-in | hs-out | preconf-provider | discovery | preconf-bidder | readmsg | readheader
 	Ed    bool   `json:"ed25519_peer"`
 	Wire  string `json:"wire"` // bytes the remote puts on the stream (hex)
@@ -177,6 +179,30 @@ func c06Run(t *testing.T, in c06In, w *c04World) (obs c06Obs) {
 		name := preconfirmation.ProtocolName
 		if in.Entry == "discovery" {
 			name = discovery.ProtocolName
+		}
+		if in.Parallel > 0 {
+			// the admitted peer opens many streams at once, each carrying the same bytes
+			var wg sync.WaitGroup
+			var pmu sync.Mutex
+			for g := 0; g < in.Parallel; g++ {
+				wg.Add(1)
+				go func() {
+					defer wg.Done()
+					defer func() {
+						if r := recover(); r != nil {
+							pmu.Lock()
+							obs.Panic = true
+							obs.Note = fmt.Sprint(r)
+							pmu.Unlock()
+						}
+					}()
+					for k := 0; k < 40; k++ {
+						fh.handlers[name](&c04Stream{rd: bytes.NewReader(wire), conn: ls.conn, writeFail: -1})
+					}
+				}()
+			}
+			wg.Wait()
+			break
 		}
 		fh.handlers[name](ls)
 		time.Sleep(time.Millisecond) // discovery dials asynchronously
@@ -331,6 +357,14 @@ func TestVerifC06(t *testing.T) {
 	}
 	// ---- bids to the provider handler: digest / signature length classes, amounts, numbers
 	base, _ := bidder.ConstructSignedBid(hex.EncodeToString(make([]byte, 32)), "1000", 10, 1, 2)
+	{
+		// one admitted peer, many streams in parallel (well-formed and not)
+		bad := proto.Clone(base).(*preconfpb.Bid)
+		bad.Signature = cut(base.Signature, 64)
+		emit(c06In{Tag: "parallel-streams", Entry: "preconf-provider", Parallel: 64, Wire: hx(append(c06Header(), c06Msg(bad)...))})
+		emit(c06In{Tag: "parallel-streams", Entry: "preconf-provider", Parallel: 32, Wire: hx(append(c06Header(), c06Msg(base)...))})
+		emit(c06In{Tag: "parallel-streams", Entry: "discovery", Parallel: 32, Wire: hx(append(c06Header(), c06Msg(&discoverypb.PeerList{})...))})
+	}
 	amounts := []string{"", "abc", "-5", "+5", "1e9", "0x10", "99999999999999999999999999999999999999999999999999999999999999999999999999999999999", "١٢٣", "1 ", "\x00"}
 	for l := 0; l <= 66; l++ {
 		b := proto.Clone(base).(*preconfpb.Bid)
